@@ -827,9 +827,9 @@ Proof. destruct c; reflexivity. Qed.
 Lemma fmt3_numtext (a b c : N) : fmt3 (Z.of_N a) (Z.of_N b) (Z.of_N c) = numtext [a; b; c].
 Proof. unfold fmt3, numtext. rewrite !dec_z_of_N. reflexivity. Qed.
 
-Lemma cmp_up_not_lt a b c d n M :
+Lemma cmp_up_not_lt a b c d s n M :
   M < a -> 0 <= b -> 0 <= c -> 0 <= d -> 0 <= n ->
-  cmp_core (CRel a b c d 4 n) (CRel (M + 1) 0 0 0 4 0) <> Lt.
+  cmp_core (CRel a b c d s n) (CRel (M + 1) 0 0 0 s 0) <> Lt.
 Proof.
   intros Ha Hb Hc Hd Hn. unfold cmp_core, rel_key.
   cbn [c_major c_minor c_patch c_extra c_stab c_stabnum lex_short].
@@ -837,7 +837,7 @@ Proof.
   destruct (Z.compare_spec b 0); cbn [thenc]; try lia; try discriminate.
   destruct (Z.compare_spec c 0); cbn [thenc]; try lia; try discriminate.
   destruct (Z.compare_spec d 0); cbn [thenc]; try lia; try discriminate.
-  change (4 ?= 4) with Eq. cbn [thenc].
+  rewrite Z.compare_refl. cbn [thenc].
   destruct (Z.compare_spec n 0); cbn [thenc]; try lia; discriminate.
 Qed.
 
@@ -893,9 +893,9 @@ Proof.
     replace (a ?= Z.of_N M) with Lt by (symmetry; apply Z.compare_lt_iff; lia).
     reflexivity.
   - replace (a =? Z.of_N M) with false by (symmetry; apply Z.eqb_neq; lia). cbn [andb].
-    pose proof (cmp_up_not_lt a b c d n (Z.of_N M) E) as NL.
-    unfold stabilityStable in *.
-    destruct (cmp_core (CRel a b c d 4 n) (CRel (Z.of_N M + 1) 0 0 0 4 0)) eqn:E2;
+    pose proof (cmp_up_not_lt a b c d stabilityStable n (Z.of_N M) E) as NL.
+    destruct (cmp_core (CRel a b c d stabilityStable n)
+                       (CRel (Z.of_N M + 1) 0 0 0 stabilityStable 0)) eqn:E2;
       cbn [sat]; rewrite ?andb_false_r; try reflexivity.
     exfalso. apply NL; try lia. reflexivity.
 Qed.
